@@ -17,7 +17,7 @@ EXPLANATION = (
     "by a raw String; (R4) keyword / built-in name recognition goes through cmp_str or "
     "eq_ignore_ascii_case; (R5) exactly the CR[LF] and LF line endings are recognised; (R6) the "
     "lexer never matches an ASCII letter constant exactly; (R7) two characters of program text are "
-    "never compared (order or equality) without case folding; (R10) every parser function that recognises the end of a line as the end of something recognises a colon too, or is tabled with the reason a colon is no alternative there; (R11) no token rule of the lexer raises a fatal error, because the lexer also tokenises comment and string text; (R12) every use of the one-token end-of-statement lookahead skips optional blanks first.")
+    "never compared (order or equality) without case folding; (R10) every parser function that recognises the end of a line as the end of something recognises a colon too, or is tabled with the reason a colon is no alternative there; (R11) no token rule of the lexer raises a fatal error, because the lexer also tokenises comment and string text; (R12) every use of the one-token end-of-statement lookahead skips optional blanks first; (R13) the guard of the CR LF look-ahead in create_row_col_view is exactly `the next character exists` (not stronger).")
 NOT_DECIDED = [
     "equality of parse trees under layout transformations (blanks, comments, colon vs newline)",
     "row counting in create_row_col_view beyond presence of the CR / LF guards",
@@ -498,6 +498,55 @@ def r12_statement_end_lookahead_skips_blanks(ctx, rule="C09.R12"):
     ctx.require(rule, 2)
 
 
+def r13_lookahead_guard_is_tight(ctx, rule="C09.R13"):
+    """`line endings never change meaning` / `rows counted as the user sees them under any line-ending
+    convention`: create_row_col_view looks one character ahead of a CR to recognise CR LF.  The guard
+    of that look-ahead must be exactly `the next character exists`: C07.R1 proves that it is strong
+    enough (no index past the end); this rule proves that it is not stronger - from `the index is in
+    range` (and the other facts that hold there) the guard follows - otherwise a CR LF at a place the
+    guard wrongly excludes (the very end of the text) counts as two line ends."""
+    from .. import bounds
+    from ..sympath import Facts, show
+    prog = ctx.prog
+    f = _fn(prog, "rusty_parser", "create_row_col_view")
+    pr = bounds.Prover(prog, f)
+    n = 0
+    for kind, b, t in bounds.implicit_sites(f):
+        if kind != "bounds":
+            continue
+        goal = pr.ex.of_operand(t["o"])
+        facts = pr.dominating_facts(b)
+        # the look-ahead sites are those whose index is not the loop variable itself: their goal is
+        # not literally among the dominating facts
+        if any(c == goal and v for c, v, _d in facts):
+            continue
+        guards = [(c, v, d) for c, v, d in facts if bounds.vars_of(c) & bounds.vars_of(goal) and c[0] == "lt"
+                  and c != goal]
+        if not guards:
+            continue
+        # the guard nearest to the site
+        g = max(guards, key=lambda x: sum(1 for y in guards if f.body.dominates(y[2], x[2])))
+        n += 1
+        fx = Facts()
+        for v in bounds.vars_of(goal) | bounds.vars_of(g[0]):
+            pr._mark_signed(fx, v)
+        for c, v, d in facts:
+            if (c, v, d) == g:
+                continue
+            f2 = fx.copy()
+            if f2.assume_bool(c, v):
+                fx = f2
+        fx.assume_bool(goal, True)
+        implied = not fx.copy().assume_bool(g[0], not g[1])
+        ctx.decide(implied, rule, "%s:create_row_col_view:lookahead#%d" % (rule, n), "%s:%s" % (f.file, t.get("ln")),
+                   "the guard %s is equivalent to the index being in range" % show(g[0]),
+                   "the guard %s%s of the look-ahead is stronger than `%s`: there are positions where the next "
+                   "character exists but is not looked at - a CR LF there is counted as two line ends, so every "
+                   "position after it (and the end-of-input position) is one row too far"
+                   % ("" if g[1] else "not ", show(g[0]), show(goal)))
+    ctx.require(rule, 1)
+
+
 def run(ctx):
     common.install(ctx)
     r1_folding_pair(ctx)
@@ -514,3 +563,4 @@ def run(ctx):
     r10_statement_end_is_eol_or_colon(ctx)
     r11_lexer_is_total(ctx)
     r12_statement_end_lookahead_skips_blanks(ctx)
+    r13_lookahead_guard_is_tight(ctx)
